@@ -8,7 +8,9 @@
 From Coq Require Import ZifyBool.
 From EG.lib Require Import Base SchemaTy.
 From EG.gen Require Import GenSchema.
-From EG.model Require Import Schema RL LB.
+From EG.model Require Import Schema SchemaCheck.
+From EG.model Require RL LB.
+From EG.proofs Require Import SchemaWitness.
 Open Scope string_scope.
 Open Scope Z_scope.
 
@@ -230,9 +232,451 @@ Lemma accept_inv cv o q cat raw :
     (q_null_entry q = false -> has_null_entry (k_ty ki) (v_image v) = false).
 Proof.
   cbv zeta. unfold validate_with.
-  destruct (meta_ok o raw) as [mok|]; [|cbn; discriminate].
-  destruct (kind_info_of cat (raw_kind raw)) as [ki|]; [|cbn; discriminate].
-  destruct (norm (k_ty ki) (JObj (k_defaults ki)) raw) as [g|]; [|cbn; discriminate].
-  cbn. intro H. split_and. exists ki. repeat split; auto.
-  intro Hq. rewrite Hq in *. now apply negb_true_iff.
+  destruct (meta_ok o raw) as [mok|]; [|intro H; cbn in H; discriminate].
+  destruct (kind_info_of cat (raw_kind raw)) as [ki|]; [|intro H; cbn in H; discriminate].
+  destruct (norm (k_ty ki) (JObj (k_defaults ki)) raw) as [g|] eqn:En; [|intro H; cbn in H; discriminate].
+  intro H. cbn in H. cbn [v_image v_ty]. split_and. exists ki.
+  split; [reflexivity|]. split; [exact En|]. split; [reflexivity|].
+  split; [assumption|]. split; [assumption|]. split; [assumption|].
+  intro Hq. match goal with K : (if q_null_entry q then _ else _) = true |- _ => rewrite Hq in K; now apply negb_true_iff in K end.
 Qed.
+
+(** ** document accessors *)
+Lemma aget_In n g u : In u (aget n g) -> exists kv l, g = JObj kv /\ alookup n kv = Some (JArr l) /\ In u l.
+Proof.
+  unfold aget, jarr, jfield. destruct g; try contradiction.
+  destruct (alookup n kv) as [[]|] eqn:E; try contradiction. intro H. eauto.
+Qed.
+
+Lemma oget_In n g p : In p (oget n g) -> exists kv kv', g = JObj kv /\ alookup n kv = Some (JObj kv') /\ In p kv'.
+Proof.
+  unfold oget, jobj, jfield. destruct g; try contradiction.
+  destruct (alookup n kv) as [[]|] eqn:E; try contradiction. intro H. eauto.
+Qed.
+
+Lemma jfield_some n u m : jfield n u = Some m -> exists kv, u = JObj kv /\ alookup n kv = Some m.
+Proof. unfold jfield. destruct u; try discriminate. eauto. Qed.
+
+Lemma sget_nonempty n m : str_empty (sget n m) = false -> exists kv, m = JObj kv /\ alookup n kv = Some (JStr (sget n m)).
+Proof.
+  unfold sget, jstr, jfield. destruct m; try (cbn; discriminate).
+  destruct (alookup n kv) as [[]|] eqn:E; try (cbn; discriminate). eauto.
+Qed.
+
+Lemma not_bad (b : bool) : (b = true -> False) -> b = false.
+Proof. destruct b; [intro H; exfalso; auto | reflexivity]. Qed.
+
+(** the value of a [format=regexp] field compiles, whatever path leads to it *)
+Lemma regexp_clause o m re :
+  fmt_clause o (Some m) TStr (JStr re) -> f_format m = "regexp" -> str_empty re = false ->
+  otrue (fmt_ok o "regexp" re) = true.
+Proof.
+  unfold fmt_clause. intros H Hf Hne. rewrite Hf in H. cbn in H. rewrite Hne in H. rewrite andb_false_r in H.
+  apply H; reflexivity.
+Qed.
+
+(** ** kind table entries of the modelled kinds (computed from the generated file) *)
+Ltac kind_entry :=
+  intros H; apply kind_info_of_name in H; destruct H as [Hn Hin];
+  unfold kinds in Hin; cbn [In] in Hin;
+  repeat (destruct Hin as [Hin|Hin]; [subst; cbn in Hn; try discriminate; try (split; reflexivity)|]); contradiction.
+
+Lemma kind_RateLimiter cat ki : kind_info_of cat "RateLimiter" = Some ki -> k_ty ki = K_RateLimiter /\ k_defaults ki = [].
+Proof. kind_entry. Qed.
+Lemma kind_Proxy cat ki : kind_info_of cat "Proxy" = Some ki -> k_ty ki = K_Proxy /\ True.
+Proof. kind_entry. Qed.
+Lemma kind_CircuitBreaker cat ki : kind_info_of cat "CircuitBreaker" = Some ki ->
+  k_ty ki = K_CircuitBreaker /\ jfield "slidingWindowSize" (JObj (k_defaults ki)) = Some (JNum 100000).
+Proof. kind_entry. Qed.
+
+(** ** RateLimiter *)
+Definition rl_regex_path : list step := [SField "urls"; SElem; SField "url"; SField "regex"].
+
+Lemma rl_regex_ok o g : format_ok o K_RateLimiter g = true -> rl_regex_bad o g = false.
+Proof.
+  intro H. apply not_bad. unfold rl_regex_bad. intro Hb.
+  apply existsb_exists in Hb. destruct Hb as [u [Hin Hu]].
+  destruct (jfield "url" u) as [m|] eqn:Em; [|discriminate].
+  unfold regex_bad in Hu. apply andb_true_iff in Hu. destruct Hu as [Hne Hbad].
+  apply negb_true_iff in Hne. apply negb_true_iff in Hbad.
+  apply aget_In in Hin. destruct Hin as [kv [l [-> [Hl Hin]]]].
+  apply jfield_some in Em. destruct Em as [kv2 [-> Hl2]].
+  destruct (sget_nonempty _ _ Hne) as [kv3 [-> Hl3]].
+  set (re := sget "regex" (JObj kv3)) in *.
+  assert (Hr : reach rl_regex_path (JObj kv) (JStr re)).
+  { cbn. exists (JArr l). split; [eauto|]. exists (JObj kv2). split; [left; eauto|].
+    exists (JObj kv3). split; [eauto|]. exists (JStr re). split; [eauto|reflexivity]. }
+  unfold rl_regex_path in Hr.
+  destruct (type_at K_RateLimiter None [SField "urls"; SElem; SField "url"; SField "regex"]) as [[m t']|] eqn:Ht;
+    [|vm_compute in Ht; discriminate].
+  pose proof (format_ok_reach o _ _ _ _ _ _ _ _ H Ht Hr eq_refl) as [_ Hc].
+  vm_compute in Ht. inversion Ht; subst m t'. clear Ht.
+  apply regexp_clause in Hc; [congruence|reflexivity|assumption].
+Qed.
+
+Lemma regexp_at o K s r g re m t' :
+  format_ok o K g = true -> type_at K None (s :: r) = Some (Some m, t') -> t' = TStr -> f_format m = "regexp" ->
+  reach (s :: r) g (JStr re) -> str_empty re = false -> otrue (fmt_ok o "regexp" re) = true.
+Proof.
+  intros H Ht -> Hf Hr Hne.
+  pose proof (format_ok_reach o _ _ _ _ _ _ _ _ H Ht Hr eq_refl) as [_ Hc].
+  now apply regexp_clause in Hc.
+Qed.
+
+Lemma rl_find_policy_In name ps p : rl_find_policy name ps = Some (Some p) -> In p ps /\ is_null p = false.
+Proof.
+  induction ps as [|x t IH]; cbn; [discriminate|].
+  destruct (is_null x) eqn:En; [discriminate|].
+  destruct (String.eqb (sget "name" x) name).
+  - intros [= ->]. auto.
+  - intro H. destruct (IH H). auto.
+Qed.
+
+(** accepted by the repaired validation: every URL rule has a policy whose period is positive *)
+Lemma rl_urls_ok o g :
+  rl_validate g = true -> rl_periods_positive o g = true ->
+  forall u, In u (aget "urls" g) ->
+    exists p, rl_bound_policy g u = Some p /\ 0 < rl_period o p.
+Proof.
+  unfold rl_validate, rl_periods_positive. intros Hv Hp u Hin.
+  rewrite forallb_forall in Hv. specialize (Hv _ Hin).
+  destruct (is_null u); [discriminate|]. apply andb_true_l in Hv.
+  unfold rl_bound_policy.
+  destruct (rl_find_policy (rl_policy_of g u) (aget "policies" g)) as [[p|]|] eqn:Ef; try discriminate.
+  exists p. split; [reflexivity|].
+  apply rl_find_policy_In in Ef. destruct Ef as [Hin2 Hn].
+  rewrite forallb_forall in Hp. specialize (Hp _ Hin2). rewrite Hn in Hp.
+  unfold rl_period. destruct (period_ns o p); [lia|discriminate].
+Qed.
+
+Lemma rl_no_panic o g :
+  format_ok o K_RateLimiter g = true -> rl_validate g = true -> rl_periods_positive o g = true ->
+  rl_regex_bad o g = false /\
+  existsb (fun u => match rl_bound_policy g u with None => true | Some _ => false end) (aget "urls" g) = false /\
+  existsb (rl_url_bad o g) (aget "urls" g) = false.
+Proof.
+  intros Hf Hv Hp. split; [now apply rl_regex_ok|].
+  split; apply not_bad; intro Hb; apply existsb_exists in Hb; destruct Hb as [u [Hin Hu]];
+    destruct (rl_urls_ok o g Hv Hp u Hin) as [p [Hb Hpos]].
+  - rewrite Hb in Hu. discriminate.
+  - unfold rl_url_bad in Hu. rewrite Hb in Hu. lia.
+Qed.
+
+(** the limiter created for a URL rule never divides by zero ([EG.model.RL], C09's model) *)
+Lemma rl_acquire_no_panic (p : RL.policy) s el c : RL.pP p <> 0 -> snd (RL.acquire p s el c) <> RL.Panic.
+Proof.
+  intro Hp. unfold RL.acquire. destruct (RL.pP p =? 0) eqn:E; [lia|].
+  destruct (RL.max_tokens p <=? _); cbn; [discriminate|].
+  destruct (_ <? RL.pL p); cbn; discriminate.
+Qed.
+
+(** ** CircuitBreaker: the window has at least one bucket ([minimum=1] of the generated schema) *)
+Lemma norm_int_num lo hi d x y : norm (TInt lo hi) d x = Some y -> (exists k, d = JNum k) -> exists k, y = JNum k.
+Proof.
+  intros H [k0 ->]. destruct x; cbn in H; try discriminate.
+  - inversion H. eauto.
+  - destruct (_ && _); inversion H. eauto.
+Qed.
+
+Lemma cb_window_ok o ki raw g :
+  k_ty ki = K_CircuitBreaker -> jfield "slidingWindowSize" (JObj (k_defaults ki)) = Some (JNum 100000) ->
+  norm (k_ty ki) (JObj (k_defaults ki)) raw = Some g -> schema_ok o (k_ty ki) (trim g) = true ->
+  cb_window_bad g = false.
+Proof.
+  intros Hty Hd Hn Hs. rewrite Hty in *. unfold K_CircuitBreaker, T_resilience_CircuitBreakerPolicy in Hn, Hs.
+  match type of Hn with norm (TStruct ?fs) _ _ = _ => set (FS := fs) in * end.
+  destruct raw; cbn [norm] in Hn; try discriminate.
+  - (* yaml null document: the defaults *)
+    cbn in Hn. inversion Hn; subst g. unfold cb_window_bad. rewrite Hd. reflexivity.
+  - destruct (norm_fields norm (JObj (k_defaults ki)) kv FS) as [out|] eqn:En; [|discriminate].
+    cbn in Hn. inversion Hn; subst g. clear Hn.
+    destruct (field_of "slidingWindowSize" FS) as [[m ft]|] eqn:Ef; [|vm_compute in Ef; discriminate].
+    destruct (norm_fields_field _ _ _ _ _ _ _ _ En Ef) as [y [Hy Hk]].
+    pose proof (field_of_In _ _ _ _ Ef) as Hin.
+    vm_compute in Ef. inversion Ef; subst m ft. clear Ef.
+    assert (Hnum : exists k, y = JNum k).
+    { unfold field_val in Hy. rewrite Hd in Hy. destruct (alookup "slidingWindowSize" kv).
+      - eapply norm_int_num; eauto.
+      - cbn in Hy. inversion Hy. eauto. }
+    destruct Hnum as [k ->].
+    specialize (Hk eq_refl).
+    cbn [trim] in Hs. cbn [schema_ok] in Hs.
+    pose proof (trim_kv_lookup _ _ _ Hk eq_refl) as Ht. cbn [trim] in Ht.
+    destruct (schema_fields_field _ _ _ _ _ _ _ _ Hs Hin eq_refl Ht) as [_ Hc].
+    cbn in Hc. unfold cb_window_bad, jfield. rewrite Hk. lia.
+Qed.
+
+(** ** Proxy: every regexp of every request matcher compiles ([format=regexp] of the generated schema) *)
+Lemma reach_app p q g x v : reach p g x -> reach q x v -> reach (p ++ q) g v.
+Proof.
+  revert g. induction p as [|s r IH]; intros g Hp Hq; cbn in *.
+  - now subst.
+  - destruct Hp as [y [Hs Hr]]. exists y. split; [assumption|]. now apply IH.
+Qed.
+
+Definition is_regexp_field (K : gty) (p : list step) : bool :=
+  match type_at K None p with
+  | Some (Some m, TStr) => String.eqb (f_format m) "regexp"
+  | _ => false
+  end.
+
+Lemma regexp_field_at o K s r g re :
+  format_ok o K g = true -> is_regexp_field K (s :: r) = true -> reach (s :: r) g (JStr re) -> str_empty re = false ->
+  otrue (fmt_ok o "regexp" re) = true.
+Proof.
+  unfold is_regexp_field. intros H Hi Hr Hne.
+  destruct (type_at K None (s :: r)) as [[[m|] t']|] eqn:Ht; try discriminate.
+  destruct t'; try discriminate. apply String.eqb_eq in Hi.
+  eapply regexp_at; eauto.
+Qed.
+
+Lemma regex_bad_reach o m : regex_bad o m = true ->
+  exists re, reach [SField "regex"] m (JStr re) /\ str_empty re = false /\ otrue (fmt_ok o "regexp" re) = false.
+Proof.
+  unfold regex_bad. intro H. apply andb_true_iff in H. destruct H as [Hne Hb].
+  apply negb_true_iff in Hne. apply negb_true_iff in Hb.
+  destruct (sget_nonempty _ _ Hne) as [kv [-> Hl]].
+  exists (sget "regex" (JObj kv)). split; [|auto]. cbn. eexists. split; [eauto|reflexivity].
+Qed.
+
+Lemma matcher_regex_ok o K s r g f :
+  format_ok o K g = true -> reach (s :: r) g f ->
+  is_regexp_field K ((s :: r) ++ [SField "headers"; SElem; SField "regex"]) = true ->
+  is_regexp_field K ((s :: r) ++ [SField "urls"; SElem; SField "url"; SField "regex"]) = true ->
+  matcher_regex_bad o f = false.
+Proof.
+  intros H Hr Hh Hu. apply not_bad. unfold matcher_regex_bad. intro Hb. apply orb_true_iff in Hb.
+  destruct Hb as [Hb|Hb]; apply existsb_exists in Hb.
+  - destruct Hb as [[k m] [Hin Hm]]. cbn in Hm. apply regex_bad_reach in Hm. destruct Hm as [re [Hre [Hne Hbad]]].
+    apply oget_In in Hin. destruct Hin as [kv [kv' [-> [Hl Hin]]]].
+    assert (Hr2 : reach ((s :: r) ++ [SField "headers"; SElem; SField "regex"]) g (JStr re)).
+    { eapply reach_app; [exact Hr|]. cbn. exists (JObj kv'). split; [eauto|].
+      exists m. split; [right; eauto|]. exact Hre. }
+    rewrite <- app_comm_cons in Hr2, Hh.
+    pose proof (regexp_field_at o K _ _ g re H Hh Hr2 Hne). congruence.
+  - destruct Hb as [u [Hin Hm]]. destruct (jfield "url" u) as [m|] eqn:Em; [|discriminate].
+    apply regex_bad_reach in Hm. destruct Hm as [re [Hre [Hne Hbad]]].
+    apply aget_In in Hin. destruct Hin as [kv [l [-> [Hl Hin]]]].
+    apply jfield_some in Em. destruct Em as [kv2 [-> Hl2]].
+    assert (Hr2 : reach ((s :: r) ++ [SField "urls"; SElem; SField "url"; SField "regex"]) g (JStr re)).
+    { eapply reach_app; [exact Hr|]. cbn. exists (JArr l). split; [eauto|].
+      exists (JObj kv2). split; [left; eauto|]. exists m. split; [eauto|]. exact Hre. }
+    rewrite <- app_comm_cons in Hr2, Hu.
+    pose proof (regexp_field_at o K _ _ g re H Hu Hr2 Hne). congruence.
+Qed.
+
+Lemma proxy_regex_ok o g : format_ok o K_Proxy g = true -> proxy_regex_bad o g = false.
+Proof.
+  intro H. apply not_bad. unfold proxy_regex_bad, proxy_pools. intro Hb.
+  apply existsb_exists in Hb. destruct Hb as [p [Hin Hp]].
+  destruct (jfield "filter" p) as [f|] eqn:Ef; [|discriminate].
+  apply jfield_some in Ef. destruct Ef as [kvp [-> Hlf]].
+  apply in_app_or in Hin. destruct Hin as [Hin|Hin].
+  - apply aget_In in Hin. destruct Hin as [kv [l [-> [Hl Hin]]]].
+    assert (Hr : reach [SField "pools"; SElem; SField "filter"] (JObj kv) f).
+    { cbn. exists (JArr l). split; [eauto|]. exists (JObj kvp). split; [left; eauto|]. exists f. split; [eauto|reflexivity]. }
+    rewrite (matcher_regex_ok o K_Proxy _ _ _ f H Hr) in Hp; [discriminate| vm_compute; reflexivity | vm_compute; reflexivity].
+  - destruct (jfield "mirrorPool" g) as [mp|] eqn:Em; [|contradiction].
+    destruct Hin as [->|[]]. apply jfield_some in Em. destruct Em as [kv [-> Hl]].
+    assert (Hr : reach [SField "mirrorPool"; SField "filter"] (JObj kv) f).
+    { cbn. exists (JObj kvp). split; [eauto|]. exists f. split; [eauto|reflexivity]. }
+    rewrite (matcher_regex_ok o K_Proxy _ _ _ f H Hr) in Hp; [discriminate| vm_compute; reflexivity | vm_compute; reflexivity].
+Qed.
+
+(** ** the repaired validation excludes every modelled panic site (all leaf kinds at once) *)
+Lemma andb_guard (a b : bool) : (a = true -> b = false) -> a && b = false.
+Proof. destruct a; cbn; auto. Qed.
+
+Lemma orb_false (a b : bool) : a = false -> b = false -> a || b = false.
+Proof. intros -> ->. reflexivity. Qed.
+
+Lemma is_adaptor_cases k : is_adaptor k = true -> k = "RequestAdaptor" \/ k = "ResponseAdaptor".
+Proof. unfold is_adaptor. intro H. apply orb_true_iff in H. destruct H as [H|H]; apply String.eqb_eq in H; auto. Qed.
+Lemma is_builder_cases k : is_builder k = true -> k = "RequestBuilder" \/ k = "ResponseBuilder".
+Proof. unfold is_builder. intro H. apply orb_true_iff in H. destruct H as [H|H]; apply String.eqb_eq in H; auto. Qed.
+
+Lemma builder_tpl_ok o g : builder_validate o ideal g = true -> tpl_bad o g = false.
+Proof.
+  unfold builder_validate, tpl_bad. cbn [q_builder_template ideal]. intro H. split_and.
+  destruct (str_empty (sget "template" g)); [reflexivity|]. cbn.
+  destruct (alookup (tpl_key g) (o_tpl_ok o)) as [[]|]; try discriminate.
+  now rewrite andb_false_r.
+Qed.
+
+Theorem leaf_valid_no_panic o cat raw :
+  let v := validate_leaf o ideal cat raw in
+  v_accept v = true ->
+  may_init o ideal (v_ty v) (raw_kind raw) (v_image v) = false /\
+  may_handle o ideal (v_ty v) (raw_kind raw) (v_image v) = false.
+Proof.
+  cbv zeta. intro Ha. unfold validate_leaf in *.
+  destruct (accept_inv _ _ _ _ _ Ha) as [ki [Hk [Hn [Hty [Hs [Hf [Hcv Hnull]]]]]]].
+  specialize (Hnull eq_refl).
+  set (v := validate_with (custom_validate o ideal) o ideal cat raw) in *.
+  rewrite Hty. remember (raw_kind raw) as kind eqn:Ek. remember (v_image v) as g eqn:Eg.
+  clear Ha Ek Eg v Hty.
+  unfold may_init, may_handle. rewrite Hnull. cbn [orb q_wr_zero_total q_fallback_nil_resp ideal andb].
+  split.
+  - repeat apply orb_false; apply andb_guard; intro E.
+    + apply String.eqb_eq in E. subst kind. destruct (kind_RateLimiter _ _ Hk) as [Ht _]. rewrite Ht in *.
+      cbn in Hcv. split_and. now apply rl_regex_ok.
+    + apply String.eqb_eq in E. subst kind. destruct (kind_Proxy _ _ Hk) as [Ht _]. rewrite Ht in *.
+      now apply proxy_regex_ok.
+    + apply is_adaptor_cases in E. destruct E; subst kind; cbn in Hcv; rewrite Hcv; reflexivity.
+    + apply is_builder_cases in E. destruct E; subst kind; cbn in Hcv; now apply builder_tpl_ok.
+    + apply String.eqb_eq in E. subst kind. destruct (kind_RateLimiter _ _ Hk) as [Ht _]. rewrite Ht in *.
+      cbn in Hcv. split_and. now destruct (rl_no_panic o g Hf) as [_ [? _]].
+  - repeat apply orb_false; try reflexivity; apply andb_guard; intro E; apply String.eqb_eq in E; subst kind.
+    + destruct (kind_RateLimiter _ _ Hk) as [Ht _]. rewrite Ht in *.
+      cbn in Hcv. split_and. now destruct (rl_no_panic o g Hf) as [_ [_ ?]].
+    + cbn in Hcv. unfold validator_validate in Hcv. cbn [q_sig_no_keystore ideal] in Hcv. split_and.
+      unfold sig_no_keys. destruct (jfield "signature" g); [|reflexivity].
+      match goal with K : negb _ = true |- _ => now apply negb_true_iff in K end.
+    + cbn in Hcv. unfold retry_validate in Hcv. cbn [q_retry_jitter ideal] in Hcv. now rewrite Hcv.
+    + destruct (kind_CircuitBreaker _ _ Hk) as [Ht Hd]. eapply cb_window_ok; eauto.
+    + cbn in Hcv. now rewrite Hcv.
+Qed.
+
+(** ** per-kind corollaries *)
+
+Definition accepted (o : orc) (cat kind : string) (raw g : jvalue) : Prop :=
+  raw_kind raw = kind /\ v_accept (validate_leaf o ideal cat raw) = true /\ v_image (validate_leaf o ideal cat raw) = g.
+
+Lemma accepted_facts o cat kind raw g : accepted o cat kind raw g ->
+  exists ki, kind_info_of cat kind = Some ki /\ norm (k_ty ki) (JObj (k_defaults ki)) raw = Some g /\
+    schema_ok o (k_ty ki) (trim g) = true /\ format_ok o (k_ty ki) g = true /\ custom_validate o ideal kind g = true /\
+    has_null_entry (k_ty ki) g = false.
+Proof.
+  intros [<- [Ha <-]]. unfold validate_leaf in *.
+  destruct (accept_inv _ _ _ _ _ Ha) as [ki [Hk [Hn [Hty [Hs [Hf [Hcv Hnull]]]]]]].
+  exists ki. repeat split; auto.
+Qed.
+
+Lemma RateLimiter_valid_implies_precond o cat raw g : accepted o cat "RateLimiter" raw g ->
+  (forall u, In u (aget "urls" g) -> exists p, rl_bound_policy g u = Some p /\ 0 < rl_period o p) /\
+  rl_regex_bad o g = false.
+Proof.
+  intro H. destruct (accepted_facts _ _ _ _ _ H) as [ki [Hk [_ [_ [Hf [Hcv _]]]]]].
+  destruct (kind_RateLimiter _ _ Hk) as [Ht _]. rewrite Ht in *. cbn in Hcv. split_and.
+  split; [now apply rl_urls_ok | now apply rl_regex_ok].
+Qed.
+
+Lemma RateLimiter_precond_no_panic o g u p T L :
+  rl_bound_policy g u = Some p -> 0 < rl_period o p ->
+  forall s el c, snd (RL.acquire {| RL.pT := T; RL.pP := rl_period o p; RL.pL := L |} s el c) <> RL.Panic.
+Proof. intros _ Hp s el c. apply rl_acquire_no_panic. cbn. lia. Qed.
+
+Lemma CircuitBreaker_valid_implies_precond o cat raw g : accepted o cat "CircuitBreaker" raw g ->
+  exists n, jfield "slidingWindowSize" g = Some (JNum n) /\ 1000 <= n.
+Proof.
+  intro H. destruct (accepted_facts _ _ _ _ _ H) as [ki [Hk [Hn [Hs _]]]].
+  destruct (kind_CircuitBreaker _ _ Hk) as [Ht Hd].
+  pose proof (cb_window_ok o ki raw g Ht Hd Hn Hs) as Hb. unfold cb_window_bad in Hb.
+  destruct (jfield "slidingWindowSize" g) as [[]|]; try discriminate. exists milli. split; [reflexivity|lia].
+Qed.
+
+Lemma Retry_valid_implies_precond o cat raw g : accepted o cat "Retry" raw g -> retry_jitter_ok o g = true.
+Proof. intro H. destruct (accepted_facts _ _ _ _ _ H) as [ki [_ [_ [_ [_ [Hcv _]]]]]]. exact Hcv. Qed.
+
+(** the argument of rand.Intn in RetryPolicy.Wrap, int(2*wait*factor+1), is a positive int64 *)
+Definition retry_intn_arg (o : orc) (g : jvalue) : Z :=
+  let f := nget "randomizationFactor" g in
+  let w := match dur_ns o (sget "waitDuration" g) with Some d => if 0 <? d then d else 500000000 | None => 500000000 end in
+  (2 * w * f + 1000) / 1000.
+
+Lemma Retry_precond_no_panic o g : retry_jitter_ok o g = true -> 1 <= retry_intn_arg o g < 9223372036854775807.
+Proof.
+  unfold retry_jitter_ok, retry_intn_arg. intro H. split_and.
+  set (f := nget "randomizationFactor" g) in *.
+  set (w := match dur_ns o (sget "waitDuration" g) with Some d => if 0 <? d then d else 500000000 | None => 500000000 end) in *.
+  assert (0 < w) by (subst w; destruct (dur_ns o (sget "waitDuration" g)) as [d|]; [destruct (0 <? d) eqn:E|]; lia).
+  assert (0 <= f) by lia. assert (2 * w * f + 1000 < 9223372036854775807 * 1000) by lia.
+  assert (0 <= 2 * w * f) by nia.
+  split.
+  - apply Z.div_le_lower_bound; lia.
+  - apply Z.div_lt_upper_bound; lia.
+Qed.
+
+Lemma Adaptor_valid_implies_precond o cat kind raw g : is_adaptor kind = true -> accepted o cat kind raw g -> codec_ok g = true.
+Proof.
+  intros Hk H. destruct (accepted_facts _ _ _ _ _ H) as [ki [_ [_ [_ [_ [Hcv _]]]]]].
+  apply is_adaptor_cases in Hk. destruct Hk; subst kind; exact Hcv.
+Qed.
+
+Lemma Validator_valid_implies_precond o cat raw g : accepted o cat "Validator" raw g -> sig_no_keys g = false.
+Proof.
+  intro H. destruct (accepted_facts _ _ _ _ _ H) as [ki [_ [_ [_ [_ [Hcv _]]]]]].
+  cbn in Hcv. unfold validator_validate in Hcv. cbn [q_sig_no_keystore ideal] in Hcv. split_and.
+  unfold sig_no_keys. destruct (jfield "signature" g); [|reflexivity].
+  match goal with K : negb _ = true |- _ => now apply negb_true_iff in K end.
+Qed.
+
+Lemma Builder_valid_implies_precond o cat kind raw g : is_builder kind = true -> accepted o cat kind raw g -> tpl_bad o g = false.
+Proof.
+  intros Hk H. destruct (accepted_facts _ _ _ _ _ H) as [ki [_ [_ [_ [_ [Hcv _]]]]]].
+  apply is_builder_cases in Hk. destruct Hk; subst kind; cbn in Hcv; now apply builder_tpl_ok.
+Qed.
+
+Lemma TopicMapper_valid_implies_precond o cat raw g : accepted o cat "TopicMapper" raw g -> topic_index_ok g = true.
+Proof. intro H. destruct (accepted_facts _ _ _ _ _ H) as [ki [_ [_ [_ [_ [Hcv _]]]]]]. exact Hcv. Qed.
+
+(** Proxy (partial): the matcher regexps compile and there is exactly one main pool; the
+    resilience-policy references and the service-registry branch are not covered *)
+Lemma Proxy_valid_implies_precond_partial o cat raw g : accepted o cat "Proxy" raw g ->
+  proxy_regex_bad o g = false /\
+  List.length (filter (fun p => negb (jpresent (jfield "filter" p))) (aget "pools" g)) = 1%nat.
+Proof.
+  intro H. destruct (accepted_facts _ _ _ _ _ H) as [ki [Hk [_ [_ [Hf [Hcv _]]]]]].
+  destruct (kind_Proxy _ _ Hk) as [Ht _]. rewrite Ht in *. split; [now apply proxy_regex_ok|].
+  cbn in Hcv. unfold proxy_validate in Hcv. split_and. now apply Nat.eqb_eq.
+Qed.
+
+(** weightedRandom under the repaired run time ([EG.model.LB], C04's model): never [Panic] on a non-empty list *)
+Lemma wr_loop_no_panic : forall ws r i, ws <> [] -> r < LB.total ws -> LB.wr_loop ws r i <> LB.Panic.
+Proof.
+  induction ws as [|w t IH]; intros r i Hne Hr; [congruence|].
+  cbn [LB.wr_loop]. destruct (r - w <? 0) eqn:E; [discriminate|].
+  unfold LB.total in Hr. cbn in Hr. fold (LB.total t) in Hr.
+  destruct t as [|w2 t2].
+  - cbn in Hr. lia.
+  - apply IH; [discriminate|]. lia.
+Qed.
+
+Lemma Proxy_precond_no_panic ws r : ws <> [] -> r < Z.max 1 (LB.total ws) -> LB.wr_choose LB.ideal ws r <> LB.Panic.
+Proof.
+  intros Hne Hr. unfold LB.wr_choose. destruct (LB.total ws <=? 0) eqn:E; cbn; [discriminate|].
+  apply wr_loop_no_panic; [assumption|lia].
+Qed.
+
+(** ** refutations: with a single defect flag on, validation accepts a document that panics *)
+Definition refutes (i : N) (c : spec_case) : Prop :=
+  let q := only i in
+  let v := validate (sc_orc c) q (sc_cat c) (sc_raw c) in
+  v_accept v = true /\ (mi (sc_orc c) q (sc_raw c) v || mh (sc_orc c) q (sc_raw c) v) = true /\
+  (* and the repaired validation / run time does not fail on it *)
+  (let v' := validate (sc_orc c) ideal (sc_cat c) (sc_raw c) in
+   v_accept v' && (mi (sc_orc c) ideal (sc_raw c) v' || mh (sc_orc c) ideal (sc_raw c) v')) = false.
+
+Ltac refute := unfold refutes; vm_compute; repeat split; reflexivity.
+
+Lemma refuted_wr_zero_total : exists c, refutes 1 c. Proof. exists w_wr_zero_total. refute. Qed.
+Lemma refuted_rl_zero_period : exists c, refutes 2 c. Proof. exists w_rl_zero_period. refute. Qed.
+Lemma refuted_sig_no_keystore : exists c, refutes 3 c. Proof. exists w_sig_no_keystore. refute. Qed.
+Lemma refuted_adaptor_codec : exists c, refutes 4 c. Proof. exists w_adaptor_codec. refute. Qed.
+Lemma refuted_policy_ref : exists c, refutes 5 c. Proof. exists w_policy_ref. refute. Qed.
+Lemma refuted_fallback_nil_resp : exists c, refutes 6 c. Proof. exists w_fallback_nil_resp. refute. Qed.
+Lemma refuted_null_entry : exists c, refutes 7 c. Proof. exists w_null_entry. refute. Qed.
+Lemma refuted_retry_jitter : exists c, refutes 8 c. Proof. exists w_retry_jitter. refute. Qed.
+Lemma refuted_builder_template : exists c, refutes 9 c. Proof. exists w_builder_template. refute. Qed.
+Lemma refuted_topic_index : exists c, refutes 10 c. Proof. exists w_topic_index. refute. Qed.
+Lemma refuted_flow_namespace : exists c, refutes 11 c. Proof. exists w_flow_namespace. refute. Qed.
+
+(** non-vacuity: a concrete RateLimiter document is accepted by the repaired validation *)
+Example RateLimiter_nonvacuous :
+  let c := w_rl_zero_period in
+  let raw := JObj [("name", JStr "f1"); ("kind", JStr "RateLimiter");
+                   ("policies", JArr [JObj [("name", JStr "p1"); ("limitForPeriod", JNum 1000)]]);
+                   ("defaultPolicyRef", JStr "p1");
+                   ("urls", JArr [JObj [("url", JObj [("prefix", JStr "/")])]])] in
+  v_accept (validate_leaf (sc_orc c) ideal "filter" raw) = true.
+Proof. vm_compute. reflexivity. Qed.
